@@ -75,7 +75,10 @@ def project(cache, attached):
             continue
         ri = cache.get_router_info(k[0], k[1])          # the public lookup
         if ri is not None:
-            path.append([abs_int(SN_INV, k[0]), abs_int(DN_INV, k[1]), abs_addr(getattr(ri, "address", None))])
+            # last field: 1 if the lookup returns a record that is not the one the router index holds for that address
+            # (a "ghost": same address, separate bookkeeping -- the two indexes only seem to agree)
+            ghost = 0 if cache.routers.get(k[0], {}).get(getattr(ri, "address", None)) is ri else 1
+            path.append([abs_int(SN_INV, k[0]), abs_int(DN_INV, k[1]), abs_addr(getattr(ri, "address", None)), ghost])
     return {"routers": sorted(routers), "path": sorted(path), "attached": sorted(attached)}
 
 
@@ -469,6 +472,24 @@ def random_history(rng, n, attached0, statuses=(0,)):
     return ops
 
 
+def without_classes(ops, avoid):
+    """the history without the operations of the avoided classes; when a renumbering is dropped, later operations
+    are re-addressed to the number the port keeps"""
+    alias, out = {}, []
+    for o in ops:
+        o = dict(o, s=alias.get(o["s"], o["s"]))
+        if o["op"] == "renumber":
+            if opclass(o) in avoid:
+                alias[o["x"]] = o["s"]
+                continue
+            alias.pop(o["x"], None)
+            alias = {k: v for k, v in alias.items() if v != o["s"]}
+        elif opclass(o) in avoid:
+            continue
+        out.append(o)
+    return out
+
+
 # ---- validation by TLC ------------------------------------------------------------------------------------------------
 TRACE_CFG = dict(FULL, statuses=[0, 1, 2, 3], att=[[]], upd=[[]], dels=[[1]])
 VERDICT_MONITORS = ("Coherent", "NewestWins", "DeleteExact", "TrafficFollowsKnowledge")
@@ -536,6 +557,7 @@ class Judge:
         for m, l in v["viol"]:
             byname[m].append(l)
         real = False
+        typeok = 0
         for m in sorted(byname):
             base, _, clause = m.partition(":")
             ls = sorted(byname[m])
@@ -543,27 +565,41 @@ class Judge:
                 chk.extra["empty_router_records_created"] = chk.extra.get("empty_router_records_created", 0) + len(ls)
                 continue
             if base == "TypeOK":
-                chk.deviation({"level": t["level"], "tid": t["tid"], "what": "logged state outside the model's value sets",
-                               "step": ls[0], "event": evs[ls[0] - 1]})
+                typeok = ls[0]
                 continue
             assert base in VERDICT_MONITORS, m
+            ls = [l for l in ls if not evs[l - 1]["exc"].startswith("harness:")]
+            if not ls:
+                continue
             real = True
             for l in ls:
                 e = evs[l - 1]
-                cls = opclass(e)
-                self.bad_classes.add(cls)
+                if base == "TrafficFollowsKnowledge":
+                    cls = ("probe", "-")        # the knowledge is coherent, the operation did its job: the sending is at fault
+                else:
+                    cls = opclass(e)
+                    self.bad_classes.add(cls)
                 self.per_class[(base, cls, t["level"], e["exc"])] += 1
                 if (base, cls, t["level"]) in self.reported:      # one replay file per monitor, class and level
                     continue
                 self.reported.add((base, cls, t["level"]))
                 sig = {"op": cls[0], "addr": cls[1], "level": t["level"], "raised": e["exc"] or None}
+                if cls[0] == "probe":
+                    sig = {"op": "probe", "ports": len(e["st"]["attached"]), "level": t["level"]}
                 pre = evs[l - 2]["st"] if l >= 2 else {"routers": [], "path": [], "attached": t["attached0"]}
                 chk.violation(base, sig, {"clause": clause or base, "step": l, "call": {k: e[k] for k in ("op", "s", "a", "ds", "x", "via")},
                                           "raised": e["exc"], "state_before": pre, "state_after": e["st"],
                                           "probe": e["probe"], "rendering": {"snet": SN, "dnet": DN, "mac": MAC}},
                               self.replay_of(t, upto=l))
         if not real:
-            if v["rej"]:
+            inapplicable = [i + 1 for i, e in enumerate(evs) if e["exc"].startswith("harness:") and (i + 1) not in skipped]
+            if inapplicable:
+                chk.deviation({"level": t["level"], "tid": t["tid"], "step": inapplicable[0], "event": evs[inapplicable[0] - 1],
+                               "what": "the node has no port with the network number the model says is attached"})
+            elif typeok:
+                chk.deviation({"level": t["level"], "tid": t["tid"], "what": "logged state outside the model's value sets",
+                               "step": typeok, "event": evs[typeok - 1]})
+            elif v["rej"]:
                 l = v["rej"]
                 chk.deviation({"level": t["level"], "tid": t["tid"], "step": l, "event": evs[l - 1],
                                "state_before": evs[l - 2]["st"] if l >= 2 else None})
@@ -698,7 +734,7 @@ def main(tier, seed):
         graphs = [dump_graph(chk, "gQ", gQ, 3)]
     phase("R_graph_dumps")
     judge = Judge(chk)
-    node_budget = 90000 if thorough else 6000       # steps on the real node (about 1 ms each)
+    node_budget = 50000 if thorough else 6000       # steps on the real node (about 1 ms each)
     traces = []
     rinfo = []
     for g in graphs:
@@ -722,7 +758,7 @@ def main(tier, seed):
     phase("R_execution_on_impl")
 
     # ---- T: random histories ---------------------------------------------------------------------------------------
-    nrand = 120 if thorough else 16
+    nrand = 100 if thorough else 16
     ttraces = []
     for i in range(nrand):
         att0 = rng.choice([[1], [2], [1, 2], [1, 2]])
@@ -773,8 +809,7 @@ def main(tier, seed):
                     traces2.append(make_trace(level, att0, ops, {"kind": "R", "graph": g.name, "init": init, "nodes": w}))
         for t in ttraces:
             if t["tid"] in skipped:
-                ops = [o for o in t["ops"] if opclass(o) not in avoid]
-                traces2.append(make_trace(t["level"], t["attached0"], ops, {"kind": "T"}))
+                traces2.append(make_trace(t["level"], t["attached0"], without_classes(t["ops"], avoid), {"kind": "T"}))
         for t in traces2:
             account(chk, t, t["kind"])
         run_round(chk, judge, traces2, "round2")
